@@ -547,6 +547,8 @@ def main(argv):
                 "payloads carrying (sender, seq, len, adler); corpus first; everything from random.Random(seed); "
                 "non-trivial = at least one message received / at least one transition; distinct by case JSON")
     C.proof_stage(res, PROP, ["theories/Corr/C01Corr.vo"])
+    from . import optlib
+    optlib.slot_stage(res, PROP, theorems_note='C01_physical_ceiling_admits_logical_batch')
     res.extra["phase_s"] = {"proof": round(C.now() - res.t0, 1)}
     rng = random.Random(seed)
     quick = tier == "quick"
